@@ -379,6 +379,7 @@ def json_unit(ctx, src, loops):
     u.block(src, JS, PARSE_SIG, BLOCKS['dict'][0], ret_zero='',
             new_header='void JSON_parse_dict(StringReader* r, bool disable_extensions, JVal* ret)',
             rules=[ENTRY('C05_DICT_ENTRY'), Rule('ret = JSON::dict();', 'jv_set_dict(ret);', count=1),
+                   Rule(r"(\bwhile \(separator != '\}'\) \{)", r'\1 C05_C_ITER;', count=1, regex=True),
                    Rule(r'char separator = r\.get_s8\(\);', 'C05_DICT_OPEN; char separator = r.get_s8();', count=1, regex=True),
                    Rule(r'(?<!char )separator = r\.get_s8\(\);', 'C05_DICT_PEEK_C; separator = r.get_s8();', count=1, regex=True),
                    Rule(r'(\bif \([^;]*?r\.get_s8\(false\) == \'\}\'[^;]*?\) \{)', r'C05_DICT_PEEK_A; \1', count=1, regex=True),
@@ -404,6 +405,7 @@ def json_unit(ctx, src, loops):
     u.block(src, JS, PARSE_SIG, BLOCKS['list'][0], ret_zero='',
             new_header='void JSON_parse_list(StringReader* r, bool disable_extensions, JVal* ret)',
             rules=[ENTRY('C05_LIST_ENTRY'), Rule('ret = JSON::list();', 'jv_set_list(ret);', count=1),
+                   Rule(r"(\bwhile \(separator != '\]'\) \{)", r'\1 C05_C_ITER;', count=1, regex=True),
                    Rule(r'char separator = r\.get_s8\(\);', 'C05_LIST_OPEN; char separator = r.get_s8();', count=1, regex=True),
                    Rule(r'(?<!char )separator = r\.get_s8\(\);', 'C05_LIST_PEEK_C; separator = r.get_s8();', count=1, regex=True),
                    Rule(r'(\bif \([^;]*?r\.get_s8\(false\) == \'\]\'[^;]*?\) \{)', r'C05_LIST_PEEK_A; \1', count=1, regex=True),
@@ -413,6 +415,15 @@ def json_unit(ctx, src, loops):
             nloops=1, loops={1: loops['list']})
     # (c) number
     u = new_unit('number', '(C05_NUM_STEP, RD(call))', '(C05_NUM_GO_STEP, RD(call))')
+    # the two exponent scaling loops: their assigns clause lists the accumulators the loop body mentions (int_data only before fix C05-2)
+    _, nbody, _, _ = lex.find_block(pbody, BLOCKS['number'][0], 'block number')
+    scal = re.findall(r'for \(; e > 0; e--\) \{([^{}]*)\}', lex.mask(nbody))
+    if len(scal) != 2:
+        raise ExtractionBreak('%s: expected the two exponent scaling loops `for (; e > 0; e--)`' % JS)
+    loops = dict(loops)
+    for k, body in zip((5, 6), scal):
+        tgt = ['e'] + [v for v in ('int_data', 'float_data') if re.search(r'\b%s\b' % v, body)]
+        loops['num%d' % k] = '__CPROVER_assigns(%s)\n__CPROVER_loop_invariant(1 == 1)\n__CPROVER_decreases(e)' % ', '.join(tgt)
     u.block(src, JS, PARSE_SIG, BLOCKS['number'][0], ret_zero='',
             new_header='void JSON_parse_number(StringReader* r, bool disable_extensions, char root_type_ch, JVal* ret)',
             rules=[ENTRY('C05_NUM_ENTRY'), Rule(r'\bret = ([^;]*\bint_data\b[^;]*);', r'jv_set_int(ret, \1);', count=1, regex=True),
@@ -566,9 +577,9 @@ def plan(ctx):
       loops=True, kind='loop-contract', fallback_unwind=10, replay=RP('text'), first='cadical')
     G('JSON.parse.dispatch', 'dispatch', 'h_parse', 'JSON_parse', 'JSON::parse(StringReader&, bool): dispatcher', kind='recursive', replay=RP('text'))
     G('JSON.parse.list', 'list', 'h_list', 'JSON_parse_list', 'JSON::parse(StringReader&, bool): list branch',
-      loops=True, kind='recursive', replay=RP('list'), first='cadical')
+      loops=True, kind='recursive', replay=RP('list'), first='cadical', cbmc_flags=[])     # no slicing: the token ghosts must stay in the trace
     G('JSON.parse.dict', 'dict', 'h_dict', 'JSON_parse_dict', 'JSON::parse(StringReader&, bool): dictionary branch',
-      loops=True, kind='recursive', replay=RP('dict'), first='cadical')
+      loops=True, kind='recursive', replay=RP('dict'), first='cadical', cbmc_flags=[])
     NOOVF = [c for c in DEFAULT_CHECKS if c not in ('--signed-overflow-check', '--undefined-shift-check')] + ['--no-signed-overflow-check', '--no-undefined-shift-check']
     G('JSON.parse.number', 'number', 'h_number', 'JSON_parse_number', 'JSON::parse(StringReader&, bool): number branch',
       loops=True, kind='loop-contract', replay=RP('number'), fallback_unwind=10, defines=[], checks=NOOVF, first='minisat',
